@@ -8,7 +8,7 @@ import sys
 
 def _bootstrap():
     # one hash seed for every interpreter we start; /repo/src first so edits are picked up
-    if os.environ.get("PYTHONHASHSEED") != "0":
+    if os.environ.get("PYTHONHASHSEED") != "0" and not os.environ.get("SIMLDAP_DIGEST_CHILD"):
         os.environ["PYTHONHASHSEED"] = "0"
         os.execv(sys.executable, [sys.executable] + sys.argv)
     repo_src = os.environ.get("SIMLDAP_REPO_SRC", "/repo/src")
